@@ -9,7 +9,8 @@ FIX_COMMITS = ['c5b9684 (C05 DataReader EOD==0)', 'c3bb002 (C17 ESC prefix on 1x
                '6d62944 (C02 edges results[0])', '476db38 (C02 ProxyQueue per-recipient failures)',
                '044506a + a782ee8 (C11 pipe relays)', '6c9af79 (C11/C17 invalid reply code)', '511778e (C11 mixed-class rejected recipients)',
                '19de51f (C11 HttpRelay never sets a result)', '1cf38fb + ecb2777 (C08 STARTTLS injection, server and client)',
-               '81dab84 (C08 AUTH without argument)', '3808adf (C06 quoted-pairs in paths)', '5259bd2 (C06 HttpRelay connection reuse)']
+               '81dab84 (C08 AUTH without argument)', '3808adf (C06 quoted-pairs in paths)', '5259bd2 (C06 HttpRelay connection reuse)',
+               '2cbb9ad (C14 end-of-data reply outside data timeout)', '5450342 + 93f16c4 (C14 unbounded TLS close, relay and edge)']
 
 ENGINES = [
     {'name': 'runner', 'path': 'vf/runner.py', 'serves_properties': [],
@@ -31,6 +32,8 @@ ENGINES = [
      'kind_free_text': 'real slimta Server / SmtpEdge / Client over gevent socketpairs with real TLS (committed self-signed certificate), harness-side lock-step wire reader'},
     {'name': 'relay-to-edge-hop', 'path': 'vf/props/c06.py', 'serves_properties': ['C06'],
      'kind_free_text': 'StaticSmtpRelay -> SmtpEdge.handle over gevent socketpairs (Server subclass with generated extension set), HttpRelay -> WsgiEdge under gevent WSGIServer on loopback'},
+    {'name': 'stalling-peers', 'path': 'vf/props/c14.py', 'serves_properties': ['C14'],
+     'kind_free_text': 'greenlet-driven peers on real socketpairs / loopback that stall or trickle at a chosen protocol stage; all cases of a shard run concurrently'},
     {'name': 'reactive-peer', 'path': 'vf/props/c10.py', 'serves_properties': ['C10'],
      'kind_free_text': 'in-memory downstream that parses what the client sends and only then makes the scripted replies readable; a read when nothing is owed raises'},
     {'name': 'scripted-socket', 'path': 'vf/transport.py', 'serves_properties': ['C05', 'C17'],
@@ -214,6 +217,17 @@ CHECKS['C06'] = {
             'must arrive byte-identical (modulo final CRLF) and the relay result must be the reply the edge gave; Client.ehlo() must see exactly the advertised extensions',
     'design_ref': 'DESIGN.md section 2 C06',
     'note': 'UTF-8 addresses only with SMTPUTF8; 8-bit bodies to 7-bit servers are expected to fail with 5.6.3; LMTP leg ends in a harness sink',
+}
+CHECKS['C14'] = {
+    'engine': 'stalling-peers',
+    'level': 'fault_enumeration',
+    'technique': 'fault enumeration in real time: stalling / trickling peers at every stage x configuration, bounded-termination oracle with a generous watchdog',
+    'text': 'every stall point of an SMTP server session (before any byte, after each command, mid-line, inside DATA, trickling forever; plain and TLS) and of a relay '
+            'attempt (connect, banner, EHLO/LHLO, STARTTLS, second EHLO, AUTH, MAIL, RCPT, DATA, after end-of-data, RSET, QUIT; silent or trickling; SMTP/LMTP; '
+            'PIPELINING on/off), a sleeping delivery program and a silent/trickling HTTP peer: the session must end with a 421 and the attempt with a transient error, '
+            'and the connection must be released, before a watchdog of max(2 s, 20 x timeout) (re-checked alone with 5 s)',
+    'design_ref': 'DESIGN.md section 2 C14',
+    'note': 'wall clock; safety-only oracle (a delay shorter than the watchdog is invisible); timeouts 0.05-0.4 s',
 }
 
 NOT_APPLICABLE = {}
